@@ -24,20 +24,20 @@ use std::task::{Context, Poll};
 type Crf = ChunkedReadFile<SimData, SimError>;
 
 #[derive(Clone, Copy, Debug, PartialEq, Eq)]
-enum FaultD {
+pub enum FaultD {
     Truncate(u64),
     Extend(u64),
     Eintr,
     Eio,
 }
 
-struct HookState {
-    reads: u32,
-    fault: Option<(u32, FaultD)>,
-    fired: Option<(FaultD, u64)>, // fault and the offset of the read it hit
-    clamp: Vec<u32>,
-    wfile: File,
-    log: Vec<(u64, usize, usize)>,
+pub struct HookState {
+    pub reads: u32,
+    pub fault: Option<(u32, FaultD)>,
+    pub fired: Option<(FaultD, u64)>, // fault and the offset of the read it hit
+    pub clamp: Vec<u32>,
+    pub wfile: File,
+    pub log: Vec<(u64, usize, usize)>,
 }
 
 static DIR_SEQ: AtomicU64 = AtomicU64::new(0);
@@ -46,7 +46,7 @@ thread_local! {
     static DIR: RefCell<Option<PathBuf>> = const { RefCell::new(None) };
 }
 
-fn scratch_dir() -> PathBuf {
+pub fn scratch_dir() -> PathBuf {
     DIR.with(|d| {
         let mut d = d.borrow_mut();
         if d.is_none() {
@@ -112,14 +112,14 @@ fn gen_offset(t: &mut Tape, len: u64) -> u64 {
     v.min(len)
 }
 
-fn write_file(path: &PathBuf, seed: u64, len: u64) -> File {
+pub fn write_file(path: &PathBuf, seed: u64, len: u64) -> File {
     let mut f = std::fs::OpenOptions::new().create(true).truncate(true).write(true).read(true).open(path).expect("create scratch file");
     let data: Vec<u8> = (0..len).map(|i| ebyte(seed, i)).collect();
     f.write_all(&data).expect("write scratch file");
     f
 }
 
-fn install_hook(st: &Rc<RefCell<HookState>>) {
+pub fn install_hook(st: &Rc<RefCell<HookState>>) {
     let st = st.clone();
     http_serve::verif::set_read_hook(Some(Box::new(move |_f, size, offset| {
         let mut s = st.borrow_mut();
